@@ -68,6 +68,10 @@ def gen_cases(rng, tier):
               "wildcards", "lambda_f", "f_lambda", "in_f", "f_in"):
         for pre in ("", "lib.", "a.b."):
             texts += [f"{pre}{f}(x)", f"{pre}{f}(x + 1, y) * 2", f"1 + {pre}{f}(3)"]
+    # identifiers spelled like mathematical constants in another case than the parser's own (PI, oo, Infinity are the constants;
+    # e, E, pi, Pi, OO, infinity are ordinary names and stay symbols wherever the text is read)
+    for w in ("e", "E", "pi", "Pi", "OO", "Oo", "infinity", "INFINITY"):
+        texts += [w, f"{w} + 1", f"2 * {w} - x", f"x / {w}", f"f({w})", f"a.{w} + {w}"]
     # strings that are nothing but one integer literal, beyond what a double holds exactly
     texts += ["9007199254740993", "18446744073709551615", "1000000000000000000000001", "-9007199254740993", "(9007199254740993)",
               "9007199254740993 + 0", "123456789012345678901234567890", "4", "-7", "+5"]
